@@ -26,7 +26,7 @@ def vstep (m : Key → Option Bytes) : Op → Key → Option Bytes
 def vrun (m : Key → Option Bytes) (ops : List Op) : Key → Option Bytes := ops.foldl vstep m
 
 /-- operations of the extended sub-language: the cached ones, and Close + NewDBExt(non-volatile, LoadData) -/
-def OpOK2 (e : Bool) : Op → Prop
+def OpOK2 (eg : Bool) : Op → Prop
   | .reopen vol load _ => vol = false ∧ load = true
   | op => OpOK eg op
 
@@ -56,21 +56,24 @@ theorem reopen_inv3 (db : DB) (h : Inv3 db) (opts : Opts) (hs : SizeOK db)
     simp only [h.inv.nv, Bool.false_eq_true, ↓reduceIte, sinv.cached.1]
     exact ⟨trivial, trivial⟩
   obtain ⟨E, hE, hlog⟩ := sinv.logst
-  have hR : DirReadable eg (sync db).fs := fun kr hkr => ⟨sinv.dflags kr hkr, sinv.dreads kr hkr⟩
+  have hse : (sync db).eager = db.eager := (sync_cached db h.inv.cached).eager
+  have hce : (close db).eager = db.eager := close_eager db h.inv.cached
+  have hR : DirReadable db.eager (sync db).fs := fun kr hkr => ⟨by rw [← hse]; exact sinv.dflags kr hkr, sinv.dreads kr hkr⟩
   have h3 := open_inv3 (sync db).fs opts E hE (by rw [sinv.ver]; exact hlog) (by rw [sinv.ver]; exact sinv.verlt) hR hmax
   obtain ⟨_, o2⟩ := open_of_inv (sync db) sinv spe false opts
+  rw [hse] at o2
   have hstep : step db (.reopen false true opts) =
-      { openDB (sync db).fs false true opts eg with
-        effs := (close db).effs ++ (openDB (sync db).fs false true opts eg).effs } := by
+      { openDB (sync db).fs false true opts db.eager with
+        effs := (close db).effs ++ (openDB (sync db).fs false true opts db.eager).effs } := by
     show (match (close db).failed with
       | some _ => close db
-      | none => { openDB (close db).fs false true opts eg with
-                  effs := (close db).effs ++ (openDB (close db).fs false true opts eg).effs }) = _
-    rw [hclose.1, hclose.2]
+      | none => { openDB (close db).fs false true opts (close db).eager with
+                  effs := (close db).effs ++ (openDB (close db).fs false true opts (close db).eager).effs }) = _
+    rw [hclose.1, hclose.2, hce]
   rw [hstep]
   refine ⟨inv3_effs _ h3 _, fun k => ?_⟩
   rw [vals_eq, vals_eq]
-  show (ilookup k (openDB (sync db).fs false true opts eg).index).map valOf = _
+  show (ilookup k (openDB (sync db).fs false true opts db.eager).index).map valOf = _
   rw [o2 k, ← vals_eq, ← vals_eq]
   unfold vals
   rw [sabs]
@@ -137,7 +140,7 @@ theorem keys_absv (db : DB) : Keys (absv db) = Keys db.index := by
   simp [Keys, absv, absE, List.map_map]
 
 /-- one step of the extended sub-language: invariants, and the values follow the in-memory map -/
-theorem step_inv3' (db : DB) (h : Inv3 db) (op : Op) (ok : OpOK2 eg op) (fits : OpFits2 db op) :
+theorem step_inv3' (db : DB) (h : Inv3 db) (op : Op) (ok : OpOK2 db.eager op) (fits : OpFits2 db op) :
     Inv3 (step db op) ∧ ∀ k, vals (step db op) k = vstep (vals db) op k := by
   cases op with
   | reopen vol load opts =>
@@ -189,13 +192,42 @@ theorem step_inv3' (db : DB) (h : Inv3 db) (op : Op) (ok : OpOK2 eg op) (fits : 
     rw [(step_cached db (.noSync) h.inv.cached ok).2]
     rfl
 
-theorem run_inv3' (ops : List Op) (db : DB) (h : Inv3 db) (ok : ∀ op ∈ ops, OpOK2 eg op) (fits : RunFits2 db ops) :
+/-- the ghost field never changes (extended sub-language) -/
+theorem step_eager2 (db : DB) (h : Inv3 db) (op : Op) (ok : OpOK2 db.eager op) (fits : OpFits2 db op) :
+    (step db op).eager = db.eager := by
+  cases op with
+  | reopen vol load opts =>
+    obtain ⟨rfl, rfl⟩ := ok
+    obtain ⟨sinv, _, _, _⟩ := sync_inv db h.inv fits.1
+    have hclose : (close db).failed = none := by
+      unfold close
+      rw [if_neg (notFailed h.inv.cached)]
+      simp only [h.inv.nv, Bool.false_eq_true, ↓reduceIte, sinv.cached.1]
+    show (match (close db).failed with
+      | some _ => close db
+      | none => { openDB (close db).fs false true opts (close db).eager with
+                  effs := (close db).effs ++ (openDB (close db).fs false true opts (close db).eager).effs }).eager = _
+    rw [hclose]
+    show (openDB (close db).fs false true opts (close db).eager).eager = _
+    rw [openDB_eager, close_eager db h.inv.cached]
+  | put k v => exact step_eager db _ h.inv.cached ok
+  | putExt k v f => exact step_eager db _ h.inv.cached ok
+  | del k => exact step_eager db _ h.inv.cached ok
+  | get k => exact step_eager db _ h.inv.cached ok
+  | browse w => exact step_eager db _ h.inv.cached ok
+  | applyFlags k fl => exact step_eager db _ h.inv.cached ok
+  | defrag f => exact step_eager db _ h.inv.cached ok
+  | sync => exact step_eager db _ h.inv.cached ok
+  | noSync => exact step_eager db _ h.inv.cached ok
+
+theorem run_inv3' (ops : List Op) (db : DB) (h : Inv3 db) (ok : ∀ op ∈ ops, OpOK2 db.eager op) (fits : RunFits2 db ops) :
     Inv3 (run db ops) ∧ ∀ k, vals (run db ops) k = vrun (vals db) ops k := by
   induction ops generalizing db with
   | nil => exact ⟨h, fun _ => rfl⟩
   | cons op t ih =>
     obtain ⟨h1, h2⟩ := step_inv3' db h op (ok op List.mem_cons_self) fits.1
-    obtain ⟨h3, h4⟩ := ih (step db op) h1 (fun o ho => ok o (List.mem_cons_of_mem _ ho)) fits.2
+    obtain ⟨h3, h4⟩ := ih (step db op) h1 (fun o ho => by
+      rw [step_eager2 db h op (ok op List.mem_cons_self) fits.1]; exact ok o (List.mem_cons_of_mem _ ho)) fits.2
     refine ⟨h3, fun k => ?_⟩
     show vals (run (step db op) t) k = vrun (vstep (vals db) op) t k
     rw [h4 k]
